@@ -186,6 +186,13 @@ fn main() {
                 writeln!(out, "{}", text::render_event(c)).unwrap();
             }
         }
+        // e2e --cases F : RoocSolver::solve_using(auto_solver) on rendered programs (C03)
+        "e2e" => {
+            let cases = read_cases(&arg(&args, "--cases").expect("--cases"));
+            for c in &cases {
+                writeln!(out, "{}", text::e2e_event(c)).unwrap();
+            }
+        }
         _ => {
             eprintln!("usage: rv <lin> ...");
             std::process::exit(2);
